@@ -389,7 +389,31 @@ func (c *Check) genesisBindingSetter(rule string) {
 	c.req(pricingOK, rule, "service.InitGenesis#pricing", ig.Body.Pos(), "the imported binding's pricing terms are parsed from its own pricing text")
 	// per imported binding: what runs for each element of Bindings — one function called with the element, or the
 	// body of the import loop itself — writes the record and every index on every committed path
-	type effSet struct{ effs []*Eff }
+	type effSet struct {
+		effs  []*Eff
+		facts FactSet
+	}
+	// the two owner maps are kept per provider, not per binding: a path may leave them alone where it has found them
+	// already in place (a positive answer of a function that reads the map)
+	inPlace := func(fs FactSet, fam string) bool {
+		hit := false
+		for _, fa := range fs {
+			if fa.Neg {
+				continue
+			}
+			fa.T.Walk(func(t *Term) bool {
+				if g := c.P.FuncNamed(t.Op); g != nil && g.Body != nil && g.isHandWritten() {
+					for _, e := range c.P.SummaryOf(g).Effs {
+						if e.Kind == "store" && e.Family == fam && (e.Op == "Get" || e.Op == "Has") {
+							hit = true
+						}
+					}
+				}
+				return true
+			})
+		}
+		return hit
+	}
 	judge := func(unit *Func, construct string, pos token.Pos, B *Term, perPath []effSet) {
 		var lacking []string
 		for _, ps := range perPath {
@@ -401,6 +425,19 @@ func (c *Check) genesisBindingSetter(rule string) {
 			}
 			for _, fam := range []string{"0x02", "0x03", "0x04", "0x05", "0x06"} {
 				if !got[fam] {
+					if (fam == "0x04" || fam == "0x05") && ps.facts != nil {
+						// (the inverse index is written wherever the owner record is, and neither is ever deleted — C15.5 —
+						// so finding the owner record answers for both)
+						read := inPlace(ps.facts, fam) || inPlace(ps.facts, "0x04")
+						for _, e := range ps.effs {
+							if e.Kind == "store" && (e.Family == fam || e.Family == "0x04") && (e.Op == "Get" || e.Op == "Has") {
+								read = true // looked up on this very path (a helper written out in place)
+							}
+						}
+						if read {
+							continue
+						}
+					}
 					lacking = append(lacking, fam)
 				}
 			}
@@ -469,7 +506,7 @@ func (c *Check) genesisBindingSetter(rule string) {
 				if !pb.OK() {
 					continue
 				}
-				es := effSet{c.pathEffects(g, pb)}
+				es := effSet{effs: c.pathEffects(g, pb), facts: pb.AllFacts()}
 				perPath = append(perPath, es)
 				for _, e := range es.effs {
 					if e.Kind == "store" && e.Op == "Set" && e.Family != "0x02" {
